@@ -184,6 +184,17 @@ def run(out):
         muts.update(extra)
         work.append(('test-corpus-mutations-' + lang, lang, sorted(muts)))
         out.parts.append({'instance': 'test-corpus-' + lang, 'literals': len(lits[lang]), 'mutations': len(muts)})
+    # every key of the built-in snippet tables is an abbreviation a user types: it expands (the definitions are parsed only when used)
+    common.import_emmet()
+    from emmet.snippets.html import snippets as html_raw
+    from emmet.snippets.xsl import snippets as xsl_raw
+    from emmet.snippets.pug import snippets as pug_raw
+    from emmet.snippets.css import snippets as css_raw
+    mk = sorted(set(k for raw in (html_raw, xsl_raw, pug_raw) for ks in raw for k in ks.split('|')))
+    ck = sorted(set(k for ks in css_raw for k in ks.split('|')))
+    work.append(('builtin-snippet-keys-markup', 'markup', mk + [k + '>' + k for k in mk[::7]]))
+    work.append(('builtin-snippet-keys-css', 'css', ck))
+    out.parts.append({'instance': 'builtin-snippet-keys', 'markup_keys': len(mk), 'stylesheet_keys': len(ck)})
     tid = 0
     alltraces = []
     for name, lang, strings in work:
